@@ -21,7 +21,7 @@ let run (lines : string list) =
           a := a'; st := r; cap := capn; spec := [];
           (match r with
            | Some r -> Printf.printf "new %s%s ## new OK%s\n" (stat_name s) (obs r !a) (ideal [])
-           | None -> Printf.printf "new %s |%s\n" (stat_name s) (ledger !a))
+           | None -> Printf.printf "new %s |%s ## new %s |\n" (stat_name s) (ledger !a) (stat_name s))
       | _ -> failwith "bad header"
     end else
       match tok, !st with
